@@ -3,6 +3,13 @@ import numpy as np
 
 
 def samples(recipe, n):
+    # optional overall factor (orders of magnitude far from 1: absolute thresholds in the code under test)
+    if recipe.get('scale') is not None:
+        return float(recipe['scale']) * _samples({k: v for k, v in recipe.items() if k != 'scale'}, n)
+    return _samples(recipe, n)
+
+
+def _samples(recipe, n):
     k = recipe['kind']
     if k == 'list':
         x = np.array(recipe['x'], dtype=float)
